@@ -197,6 +197,9 @@ class SAxes(_Enum):
 
 
 SHAPE_MODELS = {
+    "wrappedInt": _shape_model("KWrappedInt", Optional[int], {"type": "Element", "wrapper": "w"}),
+    "wrappedIntList": _shape_model("KWrappedIntList", List[int], {"type": "Element", "wrapper": "w"}, factory=list),
+    "wrappedModel": _shape_model("KWrappedModel", Optional[SLeaf], {"type": "Element", "wrapper": "w"}),
     "enumTokens": _shape_model("KEnumTokens", Optional[SAxes], {"type": "Element"}),
     "int": _shape_model("KInt", Optional[int], {"type": "Element"}),
     "nillableInt": _shape_model("KNilInt", Optional[int], {"type": "Element", "nillable": True}),
